@@ -33,6 +33,9 @@ def diff_outputs(model_out, impl_out, keep, rtol):
 def _dd(m, i, rtol, path):
     out = []
     if isinstance(m, dict) and isinstance(i, dict):
+        if rtol is not None and isinstance(i.get("dtype"), str):
+            # narrow float types round coarsely: in the tolerance stream compare at their precision
+            rtol = max(rtol, {"float32": Fraction(1, 10**5), "float16": Fraction(1, 100)}.get(i["dtype"], rtol))
         for k in sorted(set(m) | set(i)):
             if k not in m or k not in i:
                 out.append(f"{path}.{k}: only in {'impl' if k in i else 'model'}")
@@ -48,7 +51,11 @@ def _dd(m, i, rtol, path):
             for n, (a, b) in enumerate(zip(m, i)):
                 out += _dd(a, b, rtol, f"{path}[{n}]")
     elif isinstance(m, str) and isinstance(i, str) and rtol is not None and core._numlike(m) and core._numlike(i):
-        if not core.close(m, i, rtol):
+        ok = core.close(m, i, rtol)
+        if not ok and path.rsplit(".", 1)[-1] in TOL_KEYS:
+            # derived moments suffer cancellation: absolute slack as well
+            ok = abs(Fraction(m) - Fraction(i)) <= max(Fraction(1, 10**9), rtol * 1000) * (1 + abs(Fraction(m)))
+        if not ok:
             out.append(f"{path}: model={m} impl={i}")
     elif m != i:
         out.append(f"{path}: model={m!r} impl={i!r}")
